@@ -10,7 +10,7 @@ from .values import Seq, SetV, DictV, Obj, ObjSeq, Func, Module, RangeV, OutOfSu
 
 BUILTINS = {"len", "range", "list", "tuple", "max", "min", "abs", "sum", "int", "float", "bool", "map", "zip",
             "enumerate", "sorted", "reversed", "isinstance", "set", "round", "all", "any", "dict", "str"}
-MODULES = {"np": "np", "numpy": "np", "math": "math", "itertools": "itertools", "time": "time", "sys": "sys", "logging": "logging"}
+MODULES = {"np": "np", "numpy": "np", "math": "math", "itertools": "itertools", "time": "time", "sys": "sys", "logging": "logging", "sklearn": "sklearn"}
 
 POW2 = z3.Function("pow2", z3.IntSort(), z3.IntSort())
 SUMR = z3.Function("SumR", z3.ArraySort(z3.IntSort(), z3.RealSort()), z3.IntSort(), z3.IntSort(), z3.RealSort())
@@ -72,6 +72,10 @@ def module_attr(ex, mod, attr, node):
         return Func("builtin", "time." + attr)
     if mod.name == "np.linalg":
         return Func("builtin", "np.linalg." + attr)
+    if mod.name == "sklearn":
+        return Module("sklearn." + attr)
+    if mod.name.startswith("sklearn."):
+        return Func("builtin", mod.name + "." + attr)
     raise OutOfSubset("%s.%s" % (mod.name, attr), node)
 
 
@@ -147,6 +151,8 @@ def call_builtin(ex, name, args, kwargs, node):
         it = args[0].items[0]
         it = it.val if isinstance(it, OptV) else it
         return Opaque(ARRAY_OF(LIST1(it.term)))
+    if name == "len" and args and isinstance(args[0], Opaque) and getattr(args[0], "shape", None):
+        return args[0].shape[0]
     if name == "len" and args and isinstance(args[0], Opaque):
         return LEN(args[0].term)
     if name == "len" and args and isinstance(args[0], Seq) and args[0].concrete and len(args[0].items) == 1 and isinstance(args[0].items[0], (Opaque, OptV)):
@@ -298,8 +304,10 @@ def call_builtin(ex, name, args, kwargs, node):
     if name in ("math.isinf", "np.isinf"):
         return isinstance(args[0], V.Inf)
     if name in ("np.zeros", "np.ones", "np.empty") and isinstance(args[0], Seq) and args[0].concrete and len(args[0].items) >= 2:
-        # multi-dimensional array: an opaque python value (no element-wise reasoning)
-        return Opaque(S.const("ndarray", U))
+        # multi-dimensional array: an opaque python value (no element-wise reasoning); the shape is remembered (len(), lstsq)
+        o = Opaque(S.const("ndarray", U))
+        o.shape = tuple(args[0].items)
+        return o
     if name in ("np.zeros", "np.ones", "np.empty"):
         n = args[0]
         if isinstance(n, Seq) and n.concrete and len(n.items) == 1:
@@ -316,6 +324,21 @@ def call_builtin(ex, name, args, kwargs, node):
             c = 0 if name == "np.zeros" else 1
             return Seq("array", [c if intd else Fraction(c) for _ in range(n)])
         return Seq("array", None, n, arr)
+    if name == "np.linalg.lstsq":
+        # least-squares solve: the solution is some real vector with one entry per column of the matrix; nothing else is assumed about it
+        A = args[0]
+        shape = getattr(A, "shape", None)
+        if not (isinstance(A, Opaque) and shape and len(shape) == 2):
+            raise OutOfSubset("np.linalg.lstsq of a matrix of unknown shape", node)
+        ex.assumed.append("np.linalg.lstsq returns a real vector with one entry per matrix column (its values are unconstrained)")
+        sol = Seq("array", None, shape[1], S.array("lstsq", z3.IntSort(), z3.RealSort()))
+        ex.lstsq_solution = Seq("array", None, shape[1], sol.arr)      # ghost handle for the sidecar (the program may rebind its variable)
+        return Seq("tuple", [sol, Opaque(S.const("lstsq.res", U)), Opaque(S.const("lstsq.rank", U)), Opaque(S.const("lstsq.sv", U))])
+    if name == "sklearn.metrics.mean_squared_error":
+        m = S.real("mse")
+        ex.assume(m > 0, "A-MSE-POS")
+        ex.assumed.append("A-MSE-POS: sklearn.metrics.mean_squared_error returns a positive real (a perfect fit, error 0, makes the library divide by zero)")
+        return m
     if name == "np.linspace":
         a, b, n = args[0], args[1], args[2]
         arr = S.array("linspace", z3.IntSort(), z3.RealSort())
@@ -447,7 +470,20 @@ def elementwise(ex, op, a, b, node):
     x = z3.Select(sa.arr, i) if sa is not None else a
     y = z3.Select(sb.arr, i) if sb is not None else b
     saved = len(ex.obligations)
-    body = ex.binop(op, x, y, node)
+    if isinstance(op, ast.Div) and sb is None and V.is_num(b):
+        # array / scalar: one safety condition on the scalar (numpy would not raise but produce inf/nan: outside the real-number model)
+        ex.safety("div", V.to_z3(V.bool_to_int(b)) != 0, node)
+        saved = len(ex.obligations)
+        ex.pc.append(V.to_z3(V.bool_to_int(b)) != 0)
+        ex.pc_tags.append("path")
+        try:
+            body = ex.binop(op, x, y, node)
+        finally:
+            ex.pc.pop()
+            ex.pc_tags.pop()
+        del ex.obligations[saved:]
+    else:
+        body = ex.binop(op, x, y, node)
     if len(ex.obligations) != saved:
         raise OutOfSubset("element-wise operation with safety condition (division) on symbolic arrays", node)
     bz = V.to_z3(body)
@@ -466,7 +502,9 @@ LEN = z3.Function("len", U, z3.IntSort())
 
 
 def opaque_item(ex, base, idx, node):
-    return Opaque(ITEM(base.term, V.to_z3(idx)))
+    o = Opaque(ITEM(base.term, V.to_z3(idx)))
+    o.root = getattr(base, "root", base)      # the n-d array this row / entry belongs to (a store havocs the whole array)
+    return o
 
 
 def opaque_binop(ex, op, a, b, node):
